@@ -124,7 +124,6 @@ Definition check_scase (c : scase) : option (Z * Z * list Z) :=
       let w := srun (table_H (sc_H c)) (table_x509 (sc_X c)) {| sw_links := []; sw_sigs := [] |} (map fst (sc_ops c)) in
       (* every link the implementation holds at the end is what the model holds (raw store values) *)
       if forallb (fun kv => match sget (fst kv) (sw_links w) with Some v => String.eqb v (snd kv) | None => false end) (sc_final_links c)
-         && Nat.eqb (List.length (sc_final_links c)) (List.length (sw_links w))
       then None else Some (sc_id c, -1, [])
   end.
 
